@@ -22,37 +22,64 @@
 (*   <<"spawn",w,0>>    spawn_detached(leaf_w, scope)  (= nest + start)    *)
 (*   <<"complete",w,0>> wait until leaf_w has been started (or w is known  *)
 (*                      never to start), then complete the leaf            *)
-(*   <<"join",j,0>>     connect + start scope.join() with an inline        *)
-(*                      scheduler receiver                                 *)
+(*   <<"join",j,0>>     connect + start scope.join(); the receiver's       *)
+(*                      scheduler is inline (scn.man = 0) or a manual      *)
+(*                      run queue (scn.man = 1) served by                  *)
+(*   <<"drain",0,0>>    wait until a join continuation is queued, run it   *)
+(*   <<"fspawn",w,f>>   fut_f = spawn_future(leaf_w, scope): the future is *)
+(*                      itself a nest sender (admission of f), then the    *)
+(*                      operation is nested (admission of w) and started   *)
+(*   <<"fstart",f,w>>   connect + start the future (completes once w has)  *)
+(*   <<"fdrop",f,w>>    destroy the unconsumed future                      *)
+(* The future's own protocol (state_ CAS, its private event) is C09's      *)
+(* business and is abstracted to "result stored / future waiting"; what    *)
+(* matters here is when its scope reference is dropped.                    *)
+(*                                                                         *)
+(* FirstCloserOnly = TRUE is the protocol /repo implements: end_scope()    *)
+(* signals the join event only if this very call cleared the open bit.     *)
+(* FirstCloserOnly = FALSE is the historical variant (every end_scope()    *)
+(* that finds count == 0 signals); it is kept as a spec-level mutation     *)
+(* that must violate NoTouchAfterDestruction (ScopeV2Old.cfg).             *)
 (***************************************************************************)
 EXTENDS Naturals, Sequences, FiniteSets, TLC
 
-CONSTANTS Threads, Items, Joins, Scenarios,
-          FirstCloserOnly   \* FALSE = the code as written; TRUE = proposed repair: end_scope() signals only if *it* cleared the open bit
+CONSTANTS Threads, Items, Joins, Scenarios, FirstCloserOnly
 
 VARIABLES scn,
           pi, pc,        \* per thread: index of the current op, schedule point it is parked at
+          sub,           \* per thread: fspawn is deciding the future's (0) or the operation's (1) admission
+          pend,          \* per thread: scope references still to be dropped after the current record_completion
           regS, regE,    \* per thread: the value loaded from opState_ / evt_.state_ (CAS expected value)
           iter,          \* per thread: waiters still to be completed by this thread's evt_.set()
           open, count,   \* opState_ : bit0, bits 1..
           evSig, evStack,\* evt_.state_ : signalled | stack of waiting joins (head = top)
+          jq,            \* manual scheduler: queued join continuations
           sref,          \* [Items -> BOOLEAN] the sender / operation of item w holds a non-null scope_reference
           ist,           \* [Items -> "none" | "sender" | "running" | "finished"]
           jst,           \* [Joins -> "none" | "begun" | "done"]
+          fut,           \* [Items -> item of the future of a spawn_future'd operation, 0 = none]
+          fwait,         \* [Items -> BOOLEAN] the future has been started and waits for its operation
+          wres,          \* [Items -> BOOLEAN] the spawn_future'd operation has stored its result
           \* history variables for the properties
           adm,           \* [Items -> 0 not (yet) | 1 admitted | 2 refused]
           started, fin,  \* leaf started / receiver completed or sender discarded
           mustAdmit,     \* the admitting call returned before any join began
           closeBegun, jdone, bad,
           lastT, lastPc  \* export only (hidden by VIEW)
-vars == <<scn, pi, pc, regS, regE, iter, open, count, evSig, evStack, sref, ist, jst,
+vars == <<scn, pi, pc, sub, pend, regS, regE, iter, open, count, evSig, evStack, jq, sref, ist, jst, fut, fwait, wres,
           adm, started, fin, mustAdmit, closeBegun, jdone, bad>>
 ghosts == <<lastT, lastPc>>
+\* groups for UNCHANGED clauses
+regs == <<regS, regE, iter>>
+word == <<open, count>>
+evt == <<evSig, evStack>>
+items == <<sref, ist, fut, fwait, wres, adm, started, fin, mustAdmit>>
+joins == <<jst, jdone, jq>>
 
 Prog(t) == scn.prog[t]
 Op(t) == Prog(t)[pi[t]]
 Name(t) == Op(t)[1]
-Direct == {"nest", "join", "spawn"}      \* ops that call a member of the scope object itself
+Direct == {"nest", "join", "spawn", "fspawn"}      \* ops that call a member of the scope object itself
 PlannedJoins == {j \in Joins : \E t \in Threads : \E k \in 1..Len(Prog(t)) : Prog(t)[k][1] = "join" /\ Prog(t)[k][2] = j}
 \* the harness destroys the scope when every planned join has completed and no thread is inside / still has a direct call
 Freed == /\ PlannedJoins # {} /\ \A j \in PlannedJoins : jst[j] = "done"
@@ -63,139 +90,190 @@ Init ==
   /\ scn \in Scenarios
   /\ pi = [t \in Threads |-> 1]
   /\ pc = [t \in Threads |-> IF Len(scn.prog[t]) = 0 THEN "end" ELSE "op"]
+  /\ sub = [t \in Threads |-> 0] /\ pend = [t \in Threads |-> 0]
   /\ regS = [t \in Threads |-> <<TRUE, 0>>] /\ regE = [t \in Threads |-> <<FALSE, <<>>>>]
   /\ iter = [t \in Threads |-> <<>>]
-  /\ open = TRUE /\ count = 0 /\ evSig = FALSE /\ evStack = <<>>
+  /\ open = TRUE /\ count = 0 /\ evSig = FALSE /\ evStack = <<>> /\ jq = <<>>
   /\ sref = [w \in Items |-> FALSE] /\ ist = [w \in Items |-> "none"] /\ jst = [j \in Joins |-> "none"]
+  /\ fut = [w \in Items |-> 0] /\ fwait = [w \in Items |-> FALSE] /\ wres = [w \in Items |-> FALSE]
   /\ adm = [w \in Items |-> 0] /\ started = [w \in Items |-> FALSE] /\ fin = [w \in Items |-> FALSE]
   /\ mustAdmit = [w \in Items |-> FALSE] /\ closeBegun = FALSE /\ jdone = [j \in Joins |-> 0] /\ bad = "ok"
   /\ lastT = 0 /\ lastPc = ""
 
-Finish(t) == /\ pi' = [pi EXCEPT ![t] = @ + 1]
-             /\ pc' = [pc EXCEPT ![t] = IF pi[t] + 1 > Len(Prog(t)) THEN "end" ELSE "op"]
-Goto(t, l) == pc' = [pc EXCEPT ![t] = l] /\ pi' = pi
+FinishPc(t) == /\ pi' = [pi EXCEPT ![t] = @ + 1]
+               /\ pc' = [pc EXCEPT ![t] = IF pi[t] + 1 > Len(Prog(t)) THEN "end" ELSE "op"]
+Finish(t) == FinishPc(t) /\ UNCHANGED <<sub, pend>>
+Goto(t, l) == pc' = [pc EXCEPT ![t] = l] /\ pi' = pi /\ UNCHANGED <<sub, pend>>
+\* a record_completion is over: drop the next pending reference, else the op is finished
+Next1(t) == IF pend[t] > 0
+            THEN pc' = [pc EXCEPT ![t] = "rc_fsub"] /\ pi' = pi /\ pend' = [pend EXCEPT ![t] = @ - 1] /\ UNCHANGED sub
+            ELSE Finish(t)
 
-\* the item whose admission the current op decides
-Tgt(t) == IF Name(t) \in {"copy", "lstart"} THEN Op(t)[3] ELSE Op(t)[2]
 \* try_record_start returned `ok` (or was skipped because the source sender has no scope): the nest/copy/connect returns
 Resolve(t, ok) ==
-  LET w == Tgt(t)  run == Name(t) \in {"lstart", "spawn"} IN
+  LET n == Name(t)
+      futPart == n = "fspawn" /\ sub[t] = 0
+      w == IF n \in {"copy", "lstart"} \/ futPart THEN Op(t)[3] ELSE Op(t)[2]
+      run == n \in {"lstart", "spawn"} \/ (n = "fspawn" /\ sub[t] = 1) IN
   /\ adm' = [adm EXCEPT ![w] = IF ok THEN 1 ELSE 2]
   /\ sref' = [sref EXCEPT ![w] = ok]
   /\ ist' = [ist EXCEPT ![w] = IF run THEN (IF ok THEN "running" ELSE "finished") ELSE "sender"]
   /\ started' = [started EXCEPT ![w] = run /\ ok]
   /\ fin' = [fin EXCEPT ![w] = run /\ ~ok]
   /\ mustAdmit' = [mustAdmit EXCEPT ![w] = ~closeBegun]
-  /\ Finish(t)
-JoinDone(j) == /\ jst' = [jst EXCEPT ![j] = "done"] /\ jdone' = [jdone EXCEPT ![j] = @ + 1]
-\* after evt_.set() returns: join() goes on to evt_.async_wait(), everything else is finished
-AfterSet(t) == IF Name(t) = "join" THEN Goto(t, "ev_w_load") ELSE Finish(t)
+  /\ UNCHANGED fwait
+  /\ IF futPart
+     THEN \* future_t future{scope, op} done; now init_operation: nest(sender, scope)
+          /\ pc' = [pc EXCEPT ![t] = "trs_load"] /\ pi' = pi /\ sub' = [sub EXCEPT ![t] = 1] /\ UNCHANGED <<pend, fut, wres>>
+     ELSE IF n = "fspawn"
+     THEN \* start(*op): the leaf runs, or (refused) set_done stores the result `done` at once
+          /\ fut' = [fut EXCEPT ![w] = Op(t)[3]] /\ wres' = [wres EXCEPT ![w] = ~ok]
+          /\ FinishPc(t) /\ sub' = [sub EXCEPT ![t] = 0] /\ UNCHANGED pend
+     ELSE Finish(t) /\ UNCHANGED <<fut, wres>>
+\* the join receiver's continuation is handed to its scheduler: inline -> it completes here; manual -> queued
+JoinReady(j) == IF scn.man = 1
+                THEN jq' = Append(jq, j) /\ UNCHANGED <<jst, jdone>>
+                ELSE jst' = [jst EXCEPT ![j] = "done"] /\ jdone' = [jdone EXCEPT ![j] = @ + 1] /\ UNCHANGED jq
+\* after evt_.set() returns: join() goes on to evt_.async_wait(), a record_completion is over
+AfterSet(t) == IF Name(t) = "join" THEN Goto(t, "ev_w_load") ELSE Next1(t)
 
 \* the leaf of item w completes: nest_receiver::complete moves the scope reference out, destroys the leaf operation,
-\* completes the harness receiver (WorkDone) and then drops the reference (record_completion)
+\* completes the receiver (WorkDone) and then drops the reference (record_completion).  If w was spawn_future'd the
+\* receiver stores the result and wakes a waiting future, which completes inline and drops *its* reference first.
 CompleteLeaf(t, w) ==
-  /\ fin' = [fin EXCEPT ![w] = TRUE] /\ ist' = [ist EXCEPT ![w] = "finished"] /\ sref' = [sref EXCEPT ![w] = FALSE]
-  /\ Goto(t, "rc_fsub")
-  /\ UNCHANGED <<scn, regS, regE, iter, open, count, evSig, evStack, jst, adm, started, mustAdmit, closeBegun, jdone, bad>>
+  LET f == fut[w]  wake == f # 0 /\ fwait[f] IN
+  /\ fin' = [x \in Items |-> fin[x] \/ x = w \/ (wake /\ x = f)]
+  /\ ist' = [x \in Items |-> IF x = w \/ (wake /\ x = f) THEN "finished" ELSE ist[x]]
+  /\ sref' = [x \in Items |-> sref[x] /\ x # w /\ ~(wake /\ x = f)]
+  /\ wres' = [wres EXCEPT ![w] = f # 0]
+  /\ fwait' = [x \in Items |-> fwait[x] /\ ~(wake /\ x = f)]
+  /\ pc' = [pc EXCEPT ![t] = "rc_fsub"] /\ pi' = pi /\ UNCHANGED sub
+  /\ pend' = [pend EXCEPT ![t] = IF wake THEN 1 ELSE 0]
+  /\ UNCHANGED <<scn, regs, word, evt, joins, fut, adm, started, mustAdmit, closeBegun, bad>>
 
 StepOp(t) ==
   /\ pc[t] = "op"
   /\ LET o == Op(t)  n == o[1] IN
-     CASE n \in {"nest", "spawn"} ->
+     CASE n \in {"nest", "spawn", "fspawn"} ->
             /\ Goto(t, "trs_load")
-            /\ UNCHANGED <<scn, regS, regE, iter, open, count, evSig, evStack, sref, ist, jst, adm, started, fin, mustAdmit, closeBegun, jdone, bad>>
+            /\ UNCHANGED <<scn, regs, word, evt, joins, items, closeBegun, bad>>
        [] n \in {"copy", "lstart"} ->
             IF sref[o[2]]
             THEN /\ Goto(t, "trs_load")
-                 /\ UNCHANGED <<scn, regS, regE, iter, open, count, evSig, evStack, sref, ist, jst, adm, started, fin, mustAdmit, closeBegun, jdone, bad>>
+                 /\ UNCHANGED <<scn, regs, word, evt, joins, items, closeBegun, bad>>
             ELSE /\ Resolve(t, FALSE)
-                 /\ UNCHANGED <<scn, regS, regE, iter, open, count, evSig, evStack, jst, closeBegun, jdone, bad>>
+                 /\ UNCHANGED <<scn, regs, word, evt, joins, closeBegun, bad>>
        [] n = "start" ->
             /\ ist' = [ist EXCEPT ![o[2]] = IF sref[o[2]] THEN "running" ELSE "finished"]
             /\ started' = [started EXCEPT ![o[2]] = sref[o[2]]]
             /\ fin' = [fin EXCEPT ![o[2]] = ~sref[o[2]]]
             /\ Finish(t)
-            /\ UNCHANGED <<scn, regS, regE, iter, open, count, evSig, evStack, sref, jst, adm, mustAdmit, closeBegun, jdone, bad>>
-       [] n = "discard" ->
+            /\ UNCHANGED <<scn, regs, word, evt, joins, sref, fut, fwait, wres, adm, mustAdmit, closeBegun, bad>>
+       [] n \in {"discard", "fdrop"} ->
             /\ fin' = [fin EXCEPT ![o[2]] = TRUE] /\ ist' = [ist EXCEPT ![o[2]] = "finished"]
             /\ sref' = [sref EXCEPT ![o[2]] = FALSE]
             /\ IF sref[o[2]] THEN Goto(t, "rc_fsub") ELSE Finish(t)
-            /\ UNCHANGED <<scn, regS, regE, iter, open, count, evSig, evStack, jst, adm, started, mustAdmit, closeBegun, jdone, bad>>
+            /\ UNCHANGED <<scn, regs, word, evt, joins, fut, fwait, wres, adm, started, mustAdmit, closeBegun, bad>>
+       [] n = "fstart" ->
+            \* o[2] = the future's item, o[3] = its operation's item
+            IF sref[o[2]] /\ wres[o[3]]
+            THEN \* result already there: the future completes inline and drops its reference
+                 /\ fin' = [fin EXCEPT ![o[2]] = TRUE] /\ ist' = [ist EXCEPT ![o[2]] = "finished"]
+                 /\ sref' = [sref EXCEPT ![o[2]] = FALSE] /\ started' = [started EXCEPT ![o[2]] = TRUE]
+                 /\ Goto(t, "rc_fsub")
+                 /\ UNCHANGED <<scn, regs, word, evt, joins, fut, fwait, wres, adm, mustAdmit, closeBegun, bad>>
+            ELSE IF sref[o[2]]
+            THEN /\ fwait' = [fwait EXCEPT ![o[2]] = TRUE] /\ ist' = [ist EXCEPT ![o[2]] = "running"]
+                 /\ started' = [started EXCEPT ![o[2]] = TRUE] /\ Finish(t)
+                 /\ UNCHANGED <<scn, regs, word, evt, joins, sref, fut, wres, adm, fin, mustAdmit, closeBegun, bad>>
+            ELSE \* refused future: done at once (and the shared state is dropped: no effect on the scope)
+                 /\ fin' = [fin EXCEPT ![o[2]] = TRUE] /\ ist' = [ist EXCEPT ![o[2]] = "finished"] /\ Finish(t)
+                 /\ UNCHANGED <<scn, regs, word, evt, joins, sref, fut, fwait, wres, adm, started, mustAdmit, closeBegun, bad>>
        [] n = "complete" ->
             IF ist[o[2]] = "running" THEN CompleteLeaf(t, o[2])
             ELSE /\ IF ist[o[2]] = "finished" THEN Finish(t) ELSE Goto(t, "wait")
-                 /\ UNCHANGED <<scn, regS, regE, iter, open, count, evSig, evStack, sref, ist, jst, adm, started, fin, mustAdmit, closeBegun, jdone, bad>>
+                 /\ UNCHANGED <<scn, regs, word, evt, joins, items, closeBegun, bad>>
+       [] n = "drain" ->
+            IF jq # <<>>
+            THEN /\ jst' = [jst EXCEPT ![Head(jq)] = "done"] /\ jdone' = [jdone EXCEPT ![Head(jq)] = @ + 1]
+                 /\ jq' = Tail(jq) /\ Finish(t)
+                 /\ UNCHANGED <<scn, regs, word, evt, items, closeBegun, bad>>
+            ELSE /\ Goto(t, "wait")
+                 /\ UNCHANGED <<scn, regs, word, evt, joins, items, closeBegun, bad>>
        [] n = "join" ->
             /\ jst' = [jst EXCEPT ![o[2]] = "begun"] /\ closeBegun' = TRUE
             /\ Goto(t, "es_fand")
-            /\ UNCHANGED <<scn, regS, regE, iter, open, count, evSig, evStack, sref, ist, adm, started, fin, mustAdmit, jdone, bad>>
+            /\ UNCHANGED <<scn, regs, word, evt, jdone, jq, items, bad>>
 
-\* harness spin: the leaf to be completed has not been started yet (await)
+\* harness spin (await): the leaf to be completed has not been started yet / no join continuation is queued yet
 StepWait(t) ==
   /\ pc[t] = "wait"
-  /\ LET w == Op(t)[2] IN
-     /\ ist[w] \in {"running", "finished"}
-     /\ IF ist[w] = "running" THEN CompleteLeaf(t, w)
-        ELSE /\ Finish(t)
-             /\ UNCHANGED <<scn, regS, regE, iter, open, count, evSig, evStack, sref, ist, jst, adm, started, fin, mustAdmit, closeBegun, jdone, bad>>
+  /\ IF Name(t) = "drain"
+     THEN /\ jq # <<>>
+          /\ jst' = [jst EXCEPT ![Head(jq)] = "done"] /\ jdone' = [jdone EXCEPT ![Head(jq)] = @ + 1]
+          /\ jq' = Tail(jq) /\ Finish(t)
+          /\ UNCHANGED <<scn, regs, word, evt, items, closeBegun, bad>>
+     ELSE LET w == Op(t)[2] IN
+          /\ ist[w] \in {"running", "finished"}
+          /\ IF ist[w] = "running" THEN CompleteLeaf(t, w)
+             ELSE /\ Finish(t)
+                  /\ UNCHANGED <<scn, regs, word, evt, joins, items, closeBegun, bad>>
 
 \* try_record_start: opState_.load; closed -> return false
 StepTrsLoad(t) ==
   /\ pc[t] = "trs_load" /\ Touch
   /\ regS' = [regS EXCEPT ![t] = <<open, count>>]
-  /\ IF ~open THEN Resolve(t, FALSE) ELSE
-        Goto(t, "trs_cas") /\ UNCHANGED <<sref, ist, adm, started, fin, mustAdmit>>
-  /\ UNCHANGED <<scn, regE, iter, open, count, evSig, evStack, jst, closeBegun, jdone>>
+  /\ IF ~open THEN Resolve(t, FALSE) ELSE Goto(t, "trs_cas") /\ UNCHANGED items
+  /\ UNCHANGED <<scn, regE, iter, word, evt, joins, closeBegun>>
 \* compare_exchange_weak(opState, opState + 2); failure reloads and re-tests the open bit
 StepTrsCas(t) ==
   /\ pc[t] = "trs_cas" /\ Touch
   /\ IF <<open, count>> = regS[t]
      THEN count' = count + 1 /\ Resolve(t, TRUE) /\ UNCHANGED regS
      ELSE /\ regS' = [regS EXCEPT ![t] = <<open, count>>] /\ UNCHANGED count
-          /\ IF ~open THEN Resolve(t, FALSE)
-             ELSE Goto(t, "trs_cas") /\ UNCHANGED <<sref, ist, adm, started, fin, mustAdmit>>
-  /\ UNCHANGED <<scn, regE, iter, open, evSig, evStack, jst, closeBegun, jdone>>
+          /\ IF ~open THEN Resolve(t, FALSE) ELSE Goto(t, "trs_cas") /\ UNCHANGED items
+  /\ UNCHANGED <<scn, regE, iter, open, evt, joins, closeBegun>>
 \* record_completion: fetch_sub(2); closed and last -> evt_.set()
 StepRcFsub(t) ==
   /\ pc[t] = "rc_fsub" /\ Touch
   /\ count' = count - 1
-  /\ IF ~open /\ count = 1 THEN Goto(t, "ev_xchg") ELSE Finish(t)
-  /\ UNCHANGED <<scn, regS, regE, iter, open, evSig, evStack, sref, ist, jst, adm, started, fin, mustAdmit, closeBegun, jdone>>
-\* end_scope: fetch_and(~1); count was 0 -> evt_.set(); then evt_.async_wait() is started
+  /\ IF ~open /\ count = 1 THEN Goto(t, "ev_xchg") ELSE Next1(t)
+  /\ UNCHANGED <<scn, regs, open, evt, joins, items, closeBegun>>
+\* end_scope: fetch_and(~1); this call closed the scope and the count was 0 -> evt_.set(); then evt_.async_wait()
 StepEsFand(t) ==
   /\ pc[t] = "es_fand" /\ Touch
   /\ open' = FALSE
   /\ IF count = 0 /\ (open \/ ~FirstCloserOnly) THEN Goto(t, "ev_xchg") ELSE Goto(t, "ev_w_load")
-  /\ UNCHANGED <<scn, regS, regE, iter, count, evSig, evStack, sref, ist, jst, adm, started, fin, mustAdmit, closeBegun, jdone>>
+  /\ UNCHANGED <<scn, regs, count, evt, joins, items, closeBegun>>
 \* async_manual_reset_event::set(): exchange(signalled); first setter completes the waiters one by one
 StepEvXchg(t) ==
   /\ pc[t] = "ev_xchg" /\ Touch
   /\ evSig' = TRUE /\ evStack' = <<>>
   /\ IF evSig \/ evStack = <<>> THEN AfterSet(t) /\ UNCHANGED iter
      ELSE iter' = [iter EXCEPT ![t] = evStack] /\ Goto(t, "ev_pop")
-  /\ UNCHANGED <<scn, regS, regE, open, count, sref, ist, jst, adm, started, fin, mustAdmit, closeBegun, jdone>>
+  /\ UNCHANGED <<scn, regS, regE, word, joins, items, closeBegun>>
 StepEvPop(t) ==
   /\ pc[t] = "ev_pop"
-  /\ JoinDone(Head(iter[t]))
+  /\ JoinReady(Head(iter[t]))
   /\ iter' = [iter EXCEPT ![t] = Tail(@)]
   /\ IF Tail(iter[t]) = <<>> THEN AfterSet(t) ELSE Goto(t, "ev_pop")
-  /\ UNCHANGED <<scn, regS, regE, open, count, evSig, evStack, sref, ist, adm, started, fin, mustAdmit, closeBegun, bad>>
-\* start_or_wait: load; signalled -> complete inline
+  /\ UNCHANGED <<scn, regS, regE, word, evt, items, closeBegun, bad>>
+\* start_or_wait: load; signalled -> resume inline
 StepEvWLoad(t) ==
   /\ pc[t] = "ev_w_load" /\ Touch
   /\ regE' = [regE EXCEPT ![t] = <<evSig, evStack>>]
-  /\ IF evSig THEN JoinDone(Op(t)[2]) /\ Finish(t)
-     ELSE Goto(t, "ev_w_cas") /\ UNCHANGED <<jst, jdone>>
-  /\ UNCHANGED <<scn, regS, iter, open, count, evSig, evStack, sref, ist, adm, started, fin, mustAdmit, closeBegun>>
+  /\ IF evSig THEN JoinReady(Op(t)[2]) /\ Finish(t)
+     ELSE Goto(t, "ev_w_cas") /\ UNCHANGED joins
+  /\ UNCHANGED <<scn, regS, iter, word, evt, items, closeBegun>>
 \* compare_exchange_weak(top, &op): push; failure reloads and re-tests the signalled state
 StepEvWCas(t) ==
   /\ pc[t] = "ev_w_cas" /\ Touch
   /\ IF <<evSig, evStack>> = regE[t]
-     THEN evStack' = <<Op(t)[2]>> \o evStack /\ Finish(t) /\ UNCHANGED <<regE, jst, jdone>>
+     THEN evStack' = <<Op(t)[2]>> \o evStack /\ Finish(t) /\ UNCHANGED <<regE, joins>>
      ELSE /\ regE' = [regE EXCEPT ![t] = <<evSig, evStack>>] /\ UNCHANGED evStack
-          /\ IF evSig THEN JoinDone(Op(t)[2]) /\ Finish(t)
-             ELSE Goto(t, "ev_w_cas") /\ UNCHANGED <<jst, jdone>>
-  /\ UNCHANGED <<scn, regS, iter, open, count, evSig, sref, ist, adm, started, fin, mustAdmit, closeBegun>>
+          /\ IF evSig THEN JoinReady(Op(t)[2]) /\ Finish(t)
+             ELSE Goto(t, "ev_w_cas") /\ UNCHANGED joins
+  /\ UNCHANGED <<scn, regS, iter, word, evSig, items, closeBegun>>
 
 Step(t) == \/ StepOp(t) \/ StepWait(t) \/ StepTrsLoad(t) \/ StepTrsCas(t) \/ StepRcFsub(t) \/ StepEsFand(t)
            \/ StepEvXchg(t) \/ StepEvPop(t) \/ StepEvWLoad(t) \/ StepEvWCas(t)
@@ -208,12 +286,16 @@ FairSpec == Spec /\ \A t \in Threads : WF_<<vars, ghosts>>(Step(t) /\ lastT' = t
 
 \* ---- properties (C08) ----
 AllAdmittedFinished == \A w \in Items : adm[w] = 1 => fin[w]
-\* a join receiver has completed => scope closed, count zero, every admitted item completed or discarded
-JoinOnlyAfterAllDone == \A j \in Joins : jst[j] = "done" => (~open /\ count = 0 /\ AllAdmittedFinished)
-JoinOncePerStart == \A j \in Joins : jdone[j] <= 1 /\ (jdone[j] = 1 => jst[j] = "done")
+\* a join receiver has completed => scope closed, count zero, every admitted item (operations, nest senders and
+\* still-unconsumed futures alike) completed or discarded
+JoinOnlyAfterAllDone == \A j \in Joins : (jst[j] = "done" \/ \E i \in 1..Len(jq) : jq[i] = j)
+                                         => (~open /\ count = 0 /\ AllAdmittedFinished)
+JoinOncePerStart == \A j \in Joins : /\ jdone[j] <= 1 /\ (jdone[j] = 1 => jst[j] = "done")
+                                     /\ Cardinality({i \in 1..Len(jq) : jq[i] = j}) + jdone[j] <= 1
 \* the count is exactly the number of live scope references
-CountExact == count = Cardinality({w \in Items : sref[w]})
-               + Cardinality({t \in Threads : pc[t] = "rc_fsub"})
+CountExact == LET Sum(f) == f[1] + f[2] + f[3] IN
+              count = Cardinality({w \in Items : sref[w]}) + Cardinality({t \in Threads : pc[t] = "rc_fsub"})
+                      + Sum([t \in 1..3 |-> IF t \in Threads THEN pend[t] ELSE 0])
 \* admitted <=> the item holds/held a reference; refused items never start; admission before any join began succeeds
 AdmittedIffBeforeClose == \A w \in Items : /\ (sref[w] => adm[w] = 1)
                                            /\ (adm[w] = 2 => ~started[w] /\ ist[w] # "running")
